@@ -145,11 +145,35 @@ pub struct RunOutcome<R> {
     pub results: Vec<Option<R>>,
     pub stuck: Option<Stuck>,
     pub preemptions: u32,
+    /// how often a worker that kept running without getting anywhere was switched away from
+    pub fair_switches: u32,
 }
 
 /// Terminating executions of the scenarios used here (<= 4 threads x <= 3 calls on texts of <= 4
-/// lines) pass a few hundred yield points at most.
-pub const MAX_STEPS: usize = 5_000;
+/// lines) pass about 1 300 yield points at most (evidence note max:yield-points-in-one-execution).
+/// The bound is only meaningful because the default continuation is *fair* (see FAIR_AFTER): an
+/// implementation that legitimately spin-waits for another thread gets that thread scheduled.
+pub const MAX_STEPS: usize = 20_000;
+
+/// After this many consecutive decisions for the same worker, the controller stops preferring it:
+/// it is left out of the option list at that point, so that another runnable worker gets a step. A
+/// worker of the scenarios used here lives for a few hundred yield points in total, so this only
+/// ever happens to a worker that is spinning on something another worker has to release.
+pub const FAIR_AFTER: usize = 500;
+
+/// A worker whose last SPIN_WINDOW yield points (within one uninterrupted run) repeat with a
+/// period of at most 4 labels is taken to be spin-waiting and is deprioritised in the same way.
+/// Being wrong about this costs nothing but a non-preemptive switch: every schedule the controller
+/// produces is a schedule the program can have.
+pub const SPIN_WINDOW: usize = 24;
+
+fn looks_like_spinning(h: &[&'static str]) -> bool {
+    if h.len() < SPIN_WINDOW {
+        return false;
+    }
+    let w = &h[h.len() - SPIN_WINDOW..];
+    (1..=4).any(|p| (p..w.len()).all(|i| w[i] == w[i - p]))
+}
 
 pub enum Policy<'a> {
     /// follow these option indices, then always option 0 (= keep running the same worker)
@@ -191,6 +215,9 @@ pub fn run_controlled<R: Send + 'static>(bodies: Vec<Box<dyn FnOnce() -> R + Sen
     }
     let mut decisions: Vec<Decision> = vec![];
     let mut prev: Option<usize> = None;
+    let mut consecutive = 0usize;
+    let mut run_labels: Vec<&'static str> = vec![];
+    let mut fair_switches = 0u32;
     let mut preemptions = 0u32;
     let mut stuck = None;
     loop {
@@ -225,11 +252,21 @@ pub fn run_controlled<R: Send + 'static>(bodies: Vec<Box<dyn FnOnce() -> R + Sen
             stuck = Some(Stuck::Deadlock(st.workers.iter().map(|w| (w.at, w.wants_lock)).collect()));
             break;
         }
-        let prev_runnable = prev.is_some_and(|p| options.contains(&p));
+        if let Some(p) = prev {
+            run_labels.push(st.workers[p].at);
+        }
+        let fair_switch = (consecutive >= FAIR_AFTER || looks_like_spinning(&run_labels)) && options.len() > 1 && prev.is_some_and(|p| options.contains(&p));
+        let prev_runnable = !fair_switch && prev.is_some_and(|p| options.contains(&p));
         if let Some(p) = prev {
             if prev_runnable {
                 options.retain(|&x| x != p);
                 options.insert(0, p);
+            } else if fair_switch {
+                // not offered at all at this point: a schedule in which a spinning worker spins
+                // once more is a stuttering variant of one in which it does not, and offering it
+                // would let the depth-first search extend the spin by one step per schedule
+                options.retain(|&x| x != p);
+                fair_switches += 1;
             }
         }
         let k = decisions.len();
@@ -246,6 +283,10 @@ pub fn run_controlled<R: Send + 'static>(bodies: Vec<Box<dyn FnOnce() -> R + Sen
             preemptions += 1;
         }
         decisions.push(Decision { options: options.clone(), chosen_index: idx, prev_first: prev_runnable, vector: st.workers.iter().map(|w| (w.at, w.steps)).collect() });
+        if prev != Some(chosen) {
+            run_labels.clear();
+        }
+        consecutive = if prev == Some(chosen) { consecutive + 1 } else { 1 };
         prev = Some(chosen);
         st.turn = Some(chosen);
         s.cv.notify_all();
@@ -266,7 +307,7 @@ pub fn run_controlled<R: Send + 'static>(bodies: Vec<Box<dyn FnOnce() -> R + Sen
         std::thread::sleep(Duration::from_millis(200));
     }
     let results = std::mem::take(&mut *results.lock().unwrap_or_else(|p| p.into_inner()));
-    RunOutcome { decisions, results, stuck, preemptions }
+    RunOutcome { decisions, results, stuck, preemptions, fair_switches }
 }
 
 /// Depth-first enumeration of all schedules with at most `max_preemptions` preemptive context
